@@ -180,6 +180,8 @@ FEATURE_GRAMMARS = [
     ('verbose-pattern-multiline', "start: /(?x)\n  a\n  b/ 'a' $ | /(?x) b  # c\n/ $ ;\n"),
     # skip groups match but add nothing to the result (and keep names bound inside them to themselves)
     ('skip-group', "start: 'a' (?: 'b' 'a') 'b' $ | (?: 'a') x:'a' (?: y:'b') $ | (?: 'b' | 'a' 'b') {(?: 'b')} 'a' $ ;\n"),
+    # a name over a group of several nodes, bound again afterwards; an override over such a group in a rule called mid-sequence
+    ('named-multi-node-group', "start: 'a' x:('a' 'b') x:'b' $ | 'b' x:('a' 'b') x:('b' 'a') $ | 'b' r 'a' $ ;\n\nr: 'b' @:('a' 'b') ;\n"),
     ('names-in-nested-choice', "start: ('a' x:'a' | 'b' [x:'b'] y:'a') [z:'b' | z+:'a'] ;\n"),
 ]
 
@@ -193,12 +195,13 @@ def feature_inputs(name, tier):
         'meta-all': ['-1 ', '2 ', '1.5 ', 'true ', 'x '], 'lookaheads': ['a', 'b', 'c', 'd', ' '],
         'ws-directive': ['a-b', 'c', ' ', '\t', '(*x*)', '#x\n'], 'long-choice': ['a' * 9, 'b' * 9, 'j' * 9, 'a', ' '],
         'unicode': ['é', 'こんにちは', '世界', 'w', 'x', ' '],
+        'named-multi-node-group': ['a ', 'b '],
         'long-gather': ['a' * 20, 'b' * 20, ',', ' '], 'long-join': ['a' * 20, 'c' * 20, ';', ' '],
         'long-left-join': ['a' * 20, 'b' * 20, '+'], 'long-right-join': ['a' * 20, 'b' * 20, '+'],
         'long-closures': ['a' * 20 + ' ', 'b' * 20 + ' ', 'd' * 20 + ' ', 'g' * 20 + ' ', 'i' * 20], 'long-named': ['a' * 20 + ' ', 'c' * 20 + ' ', 'd' * 20, 'a'],
     }.get(name, ['a', 'b', ' '])
     n = 4 if tier == 'quick' else 5
-    if name in ('include', 'pynames', 'meta-all', 'lookaheads', 'unicode', 'token-rule-names', 'cut-in-group-optional', 'left-right-joins', 'left-right-joins-named', 'skip-group') or name.startswith('long-'):
+    if name in ('include', 'pynames', 'meta-all', 'lookaheads', 'unicode', 'token-rule-names', 'cut-in-group-optional', 'left-right-joins', 'left-right-joins-named', 'skip-group', 'named-multi-node-group') or name.startswith('long-'):
         n = 5       # their longest alternative needs that many lexemes
     if name == 'long-choice':
         n = 2
